@@ -742,3 +742,54 @@ func FeasiblePhiEdges(fn *ssa.Function, phi *ssa.Phi, evalCond func(cond ssa.Val
 	}
 	return out
 }
+
+// EffectSites returns the instructions of fn that have the effect `direct` — either because direct(instruction) holds or because
+// the instruction is a static call of an in-scope named function (not a literal) whose body has the effect, followed to `depth`
+// levels. It lets the path rules keep seeing an effect when a block of code is extracted into a helper.
+func (c *Ctx) EffectSites(fn *ssa.Function, direct func(ssa.Instruction) bool, depth int) []ssa.Instruction {
+	memo := map[*ssa.Function]int{} // 0 unknown, 1 in progress/no, 2 yes
+	var has func(f *ssa.Function, d int) bool
+	has = func(f *ssa.Function, d int) bool {
+		if memo[f] == 2 {
+			return true
+		}
+		if memo[f] == 1 || d < 0 {
+			return false
+		}
+		memo[f] = 1
+		found := false
+		EachInstr(f, false, func(in ssa.Instruction) {
+			if found {
+				return
+			}
+			if direct(in) {
+				found = true
+				return
+			}
+			if ci, ok := in.(ssa.CallInstruction); ok {
+				if cal := ci.Common().StaticCallee(); cal != nil && cal.Parent() == nil && len(cal.Blocks) > 0 && c.InScope(cal) && has(cal, d-1) {
+					found = true
+				}
+			}
+		})
+		if found {
+			memo[f] = 2
+		} else {
+			memo[f] = 0
+		}
+		return found
+	}
+	var out []ssa.Instruction
+	EachInstr(fn, false, func(in ssa.Instruction) {
+		if direct(in) {
+			out = append(out, in)
+			return
+		}
+		if ci, ok := in.(ssa.CallInstruction); ok {
+			if cal := ci.Common().StaticCallee(); cal != nil && cal != fn && cal.Parent() == nil && len(cal.Blocks) > 0 && c.InScope(cal) && has(cal, depth-1) {
+				out = append(out, in)
+			}
+		}
+	})
+	return out
+}
